@@ -252,7 +252,7 @@ def alloc_search(repo, prop, tier, seed=1):
     d = os.path.join(WORK_BASE, "alloc_driver-" + tag)
     try:
         count = 300000 if tier == "thorough" else 30000
-        res = {"what": "bounded replay of the page allocator (des-cqueue/src/stable/alloc.rs included verbatim): %d seeded random histories of allocate/deallocate with mixed sizes (1..2000) and alignments (1..16), page sizes 4096/8192/16384, every third history with one uniform layout; shadow model: every block inside a page the allocator owns, aligned as requested, disjoint from every live block, contents intact until released" % count,
+        res = {"what": "bounded replay of the page allocator (des-cqueue/src/stable/alloc.rs included verbatim): %d seeded random histories of allocate/deallocate with mixed sizes (1..2000, and every fourth pick relative to the page: exactly half a page, 8 bytes below / above it, a quarter, three eighths) and alignments (1..16), page sizes 4096/8192/16384, every third history with one uniform layout; shadow model: every block inside a page the allocator owns, aligned as requested, disjoint from every live block, contents intact until released" % count,
                "bound": "%d histories of 5..64 operations; seed %d" % (count, seed), "labelled": "bounded", "counts_as_proof": False}
         os.makedirs(os.path.join(d, "src"), exist_ok=True)
         for f in ("Cargo.toml", "Cargo.lock"):
